@@ -34,6 +34,7 @@ import (
 	"github.com/mimiro-io/datahub/internal/conf"
 	"github.com/mimiro-io/datahub/internal/jobs/source"
 	"github.com/mimiro-io/datahub/internal/server"
+	"github.com/mimiro-io/datahub/internal/verifhook"
 )
 
 // The Scheduler deals with reading and writing jobs and making sure they get added to the
@@ -337,6 +338,7 @@ func (s *Scheduler) GetRunningJobs() []JobStatus {
 	runningJobs := s.Runner.raffle.getRunningJobs()
 	jobs := make([]JobStatus, 0)
 
+	verifhook.Access(runningJobs, "raffle.runningJobs", false)
 	for k, v := range runningJobs {
 		jobs = append(jobs, JobStatus{
 			JobID:    k,
